@@ -140,7 +140,14 @@ def practice_case(ns, name):
     with open(os.path.join(root, "code.mac"), encoding="utf-8") as f:
         text = f.read()
     path = SIMROOT + "/practice/%s/code.mac" % name
-    case = Case([(path, text)], {path: text.encode("utf-8")}, "bk", "practice:" + name)
+    files = {}
+    for fn in sorted(os.listdir(root)):
+        if fn == "out.bin" or not os.path.isfile(os.path.join(root, fn)):
+            continue
+        with open(os.path.join(root, fn), "rb") as f:
+            files[SIMROOT + "/practice/%s/%s" % (name, fn)] = f.read()
+    files[path] = text.encode("utf-8")
+    case = Case([(path, text)], files, "bk", "practice:" + name)
     try:
         with open(os.path.join(root, "out.bin"), "rb") as f:
             case.expected_bin = f.read()
@@ -218,7 +225,7 @@ def make_schedules(rng, case, n):
             stmts = case.stmts[path]
             for j, names in enumerate(rows):
                 kind = stmts[j][2]
-                for nm in names:
+                for nm in sorted(names):       # set order depends on the hash seed: sort
                     k = by_name[nm]
                     d = defs[k]
                     if d["file"] == path and d["idx"] < j:
